@@ -50,9 +50,13 @@ func (ex *Exec) obligationFull(fr *Frame, st *State, kind, clause, goal string, 
 	}
 	if panicSite {
 		c := ex.topContract()
-		if c == nil || !c.NoPanic || vc.collecting > 0 {
+		if c == nil || !c.NoPanic || vc.collecting > 0 || (len(c.NoPanicProps) > 0 && vc.prog.curProp != "" && !hasProp(c.NoPanicProps, vc.prog.curProp)) {
 			st.assume(goal)
 			return
+		}
+		if len(c.NoPanicProps) > 0 && len(vc.curProps) == 0 {
+			vc.curProps = c.NoPanicProps
+			defer func() { vc.curProps = nil }()
 		}
 	}
 	if vc.collecting > 0 {
@@ -81,7 +85,13 @@ func (ex *Exec) loopHead(fr *Frame, b *ssa.BasicBlock, ord int, pred *ssa.BasicB
 	var invs []*Clause
 	var dec *Clause
 	if c != nil {
-		invs = c.LoopInv[ord]
+		for _, inv := range c.LoopInv[ord] {
+			// an invariant tagged with properties is a proof hint for those properties only
+			if len(inv.Props) > 0 && vc.prog.curProp != "" && !hasProp(inv.Props, vc.prog.curProp) {
+				continue
+			}
+			invs = append(invs, inv)
+		}
 		dec = c.LoopDec[ord]
 	}
 	pkg := fnPkg(fr.fn)
